@@ -132,7 +132,11 @@ FetchEv ==
   /\ UNCHANGED <<cfg, ring, durable, occ, pure>>
 
 \* every line carries the independently parsed bytes of the file: they change only in Sync
-DiskOK(dur) == P("C05") /\ "disk" \in DOMAIN Ln => Full(cfg', Ln.disk) = dur
+RECURSIVE SumPts(_)
+SumPts(ly) == IF ly = <<>> THEN 0 ELSE Head(ly).n + SumPts(Tail(ly))
+FileLen(c) == 16 + 12 * K(c) + 12 * SumPts(c.layout)
+\* the bytes on disk are the last synced state, and the file's length never changes after creation
+DiskOK(dur) == P("C05") /\ "disk" \in DOMAIN Ln => Full(cfg', Ln.disk) = dur /\ Ln.len = FileLen(cfg')
 
 Sync ==
   /\ Is("sync")
